@@ -301,10 +301,15 @@ class AutoSerialize:
                     f"Expected a directory path for store='dir', but got file-like path '{path}'"
                 )
             os.makedirs(path, exist_ok=True)
-            store_obj = LocalStore(path)
-            root = zarr.group(store=store_obj, overwrite=True)
-            self._recursive_save(self, root, skip_names, skip_types, compressors)
-            write_skip_metadata(root)
+            try:
+                store_obj = LocalStore(path)
+                root = zarr.group(store=store_obj, overwrite=True)
+                self._recursive_save(self, root, skip_names, skip_types, compressors)
+                write_skip_metadata(root)
+            except BaseException:
+                # never leave a partially written (but loadable) directory behind
+                shutil.rmtree(path, ignore_errors=True)
+                raise
         else:
             raise ValueError(f"Unknown store type: {store}")
 
